@@ -8,6 +8,7 @@ import (
 	"fmt"
 	"net/http"
 	"net/http/httptest"
+	"net/netip"
 	"os"
 	"path/filepath"
 	"strconv"
@@ -141,7 +142,9 @@ func vfNewC12Env(ttl uint32, rl *authRateLimiter) (e *vfC12Env, err error) {
 }
 
 func (e *vfC12Env) open() (ok bool) {
-	a := InitAuth(e.file, e.users, e.ttl, e.rl, netutil.SliceSubnetSet(nil))
+	// the default configuration trusts loopback proxies
+	trusted := netutil.SliceSubnetSet{netip.MustParsePrefix("127.0.0.0/8"), netip.MustParsePrefix("::1/128")}
+	a := InitAuth(e.file, e.users, e.ttl, e.rl, trusted)
 	if a == nil {
 		return false
 	}
@@ -156,10 +159,13 @@ func (e *vfC12Env) close() {
 }
 
 // vfLogin posts to the real login handler from the given remote host:port.
-func vfLogin(h http.Handler, remote, user, pass string) (rec *httptest.ResponseRecorder) {
+func vfLogin(h http.Handler, remote, user, pass string, hdr ...string) (rec *httptest.ResponseRecorder) {
 	body := fmt.Sprintf(`{"name":%q,"password":%q}`, user, pass)
 	r := httptest.NewRequest(http.MethodPost, "http://agh.vf.test/control/login", strings.NewReader(body))
 	r.Header.Set("Content-Type", "application/json")
+	for i := 0; i+1 < len(hdr); i += 2 {
+		r.Header.Set(hdr[i], hdr[i+1])
+	}
 	r.RemoteAddr = remote
 	rec = httptest.NewRecorder()
 	h.ServeHTTP(rec, r)
@@ -225,10 +231,24 @@ func TestVFC12RateLimitHTTP(t *testing.T) {
 				} else if rapid.IntRange(0, 3).Draw(t, "unknown_user") == 0 {
 					user = "nobody"
 				}
+				// headers a client can forge; throttling is per TCP peer
+				// address whatever they say
+				var hdr []string
+				switch rapid.IntRange(0, 5).Draw(t, "proxy_header") {
+				case 0:
+					hdr = []string{"X-Real-IP", rapid.SampledFrom([]string{"127.0.0.1", "203.0.113.9", "::1"}).Draw(t, "hdr_value")}
+				case 1:
+					hdr = []string{"X-Forwarded-For", rapid.SampledFrom([]string{"127.0.0.1, 10.0.0.1", "127.0.0.2", "198.51.100.1"}).Draw(t, "hdr_value")}
+				case 2:
+					hdr = []string{rapid.SampledFrom([]string{"CF-Connecting-IP", "True-Client-IP"}).Draw(t, "hdr_name"), "127.0.0.1"}
+				}
+				if hdr != nil {
+					vfC12.Class("limiter:forged_proxy_header")
+				}
 				blocked, amb := m.state(remote, now)
 				hadFailures := m.count[remote] > 0
 				before := vfCountSessions()
-				rec := vfLogin(h, remote, user, pass)
+				rec := vfLogin(h, remote, user, pass, hdr...)
 				after := vfCountSessions()
 				trace = append(trace, fmt.Sprintf("t=%s %s correct=%t -> %d", now, remote, correct, rec.Code))
 				vfC12.Eval()
@@ -593,6 +613,99 @@ func TestVFC12Sessions(t *testing.T) {
 		}
 		if vfC12.WantSample("session") && crossedExpiry && restarted {
 			vfC12.Sample("session", map[string]any{"ttl_s": ttl, "history": trace})
+		}
+	})
+}
+
+// TestVFC12LogoutRace: a request with the cookie racing with the logout of
+// that cookie must not bring the session back: after the logout has returned
+// and the process restarted the token does not authenticate.  The session's
+// stored expiry is a day stale, so the racing request takes the once-a-day
+// refresh path that writes the session to the file.
+func TestVFC12LogoutRace(t *testing.T) {
+	vfkit.Begin(t)
+	a := vfAssemble()
+	if a.err != nil {
+		t.Fatalf("assembly failed: %v", a.err)
+	}
+	saved := globalContext.auth
+	defer func() { globalContext.auth = saved }()
+	h := vfHandler()
+
+	rapid.Check(t, func(t *rapid.T) {
+		env, err := vfNewC12Env(30*86400, nil)
+		if err != nil {
+			t.Fatalf("VERIF-INCONCLUSIVE env: %v", err)
+		}
+		defer env.close()
+
+		n := rapid.IntRange(4, 12).Draw(t, "n_sessions")
+		users := rapid.IntRange(1, 3).Draw(t, "racing_requests")
+		// direct: the logout handler is invoked without the authentication
+		// wrapper in front of it (whose own session check would perform the
+		// daily refresh before the racing request can)
+		direct := rapid.Bool().Draw(t, "logout_handler_direct")
+		var cookies []string
+		for i := 0; i < n; i++ {
+			rec := vfLogin(h, "192.0.2.9:1", vfAdminUser, vfAdminPass)
+			v := vfSessionCookie(rec)
+			if v == "" {
+				t.Fatalf("VERIF-INCONCLUSIVE login failed: %d", rec.Code)
+			}
+			cookies = append(cookies, v)
+		}
+		// make every stored expiry fall on another day than now+TTL
+		vfShiftSessionsStored(86400 + 3600)
+
+		for _, c := range cookies {
+			start := make(chan struct{})
+			done := make(chan struct{}, users+1)
+			for u := 0; u < users; u++ {
+				go func() {
+					<-start
+					r := httptest.NewRequest(http.MethodGet, "http://agh.vf.test/control/status", nil)
+					r.AddCookie(&http.Cookie{Name: sessionCookieName, Value: c})
+					h.ServeHTTP(httptest.NewRecorder(), r)
+					done <- struct{}{}
+				}()
+			}
+			go func() {
+				<-start
+				r := httptest.NewRequest(http.MethodGet, "http://agh.vf.test/control/logout", nil)
+				r.AddCookie(&http.Cookie{Name: sessionCookieName, Value: c})
+				if direct {
+					handleLogout(httptest.NewRecorder(), r)
+				} else {
+					h.ServeHTTP(httptest.NewRecorder(), r)
+				}
+				done <- struct{}{}
+			}()
+			close(start)
+			for u := 0; u < users+1; u++ {
+				<-done
+			}
+			// the logout may have lost the race for authentication (403): then
+			// log out again, sequentially, as a user would
+			r := httptest.NewRequest(http.MethodGet, "http://agh.vf.test/control/logout", nil)
+			r.AddCookie(&http.Cookie{Name: sessionCookieName, Value: c})
+			h.ServeHTTP(httptest.NewRecorder(), r)
+		}
+
+		globalContext.auth.Close()
+		if !env.open() {
+			t.Fatalf("VERIF-INCONCLUSIVE reopen failed")
+		}
+		for i, c := range cookies {
+			r := httptest.NewRequest(http.MethodGet, "http://agh.vf.test/control/status", nil)
+			r.AddCookie(&http.Cookie{Name: sessionCookieName, Value: c})
+			rec := httptest.NewRecorder()
+			h.ServeHTTP(rec, r)
+			vfC12.Eval()
+			vfC12.Class(fmt.Sprintf("session:logout_race_checked/direct=%t", direct))
+			vfC12.Nontrivial(fmt.Sprintf("race|%d|%d|%d", n, users, i))
+			if rec.Code == http.StatusOK {
+				t.Fatalf("session %d of %d authenticates after its logout and a restart (a concurrent request brought it back)", i, n)
+			}
 		}
 	})
 }
